@@ -30,8 +30,8 @@ type specEnv struct {
 	bound  map[string]*Term
 	depth  int
 	// collected while evaluating
-	newFacts []*QFact
-	rc       *rootCtx
+	newFacts   []*QFact
+	rc         *rootCtx
 	freshAlloc func() *Term
 	ext        []extent
 	st         *State
